@@ -136,7 +136,8 @@ func loadRegions(
 	f func(region *RegionInfo) []*RegionInfo,
 ) error {
 	nextID := uint64(0)
-	endKey := regionPath(math.MaxUint64)
+	// LoadRange excludes the end key, append "\x00" to include the region with the largest ID.
+	endKey := regionPath(math.MaxUint64) + "\x00"
 
 	// Since the region key may be very long, using a larger rangeLimit will cause
 	// the message packet to exceed the grpc message size limit (4MB). Here we use
@@ -170,6 +171,10 @@ func loadRegions(
 			}
 		}
 
+		if nextID == 0 {
+			// The region with the largest ID has been loaded (nextID wrapped around), or nothing was found.
+			return nil
+		}
 		if len(res) < rangeLimit {
 			return nil
 		}
